@@ -1116,6 +1116,61 @@ void apply_mutation(const Op& op)
             d.replace(a.val_b, a.val_e - a.val_b, ext[op.uarg(1) % (sizeof(ext) / sizeof(ext[0]))]);
         }
     }
+    else if(n == "attrcopy")
+    {
+        // transplant one  name="value"  pair into another element (lost / misdirected edit): the source is
+        // picked by attribute *name* first so that rare attributes are as likely as common ones
+        struct Attr
+        {
+            size_t name_b, name_e, val_b, val_e;
+        };
+        std::vector<Attr> attrs;
+        for(size_t i = 0; i + 2 < d.size(); i++)
+        {
+            if(d[i] != '=' || d[i + 1] != '"') continue;
+            size_t nb = i;
+            while(nb > 0 && (std::isalnum((unsigned char)d[nb - 1]) || d[nb - 1] == ':' || d[nb - 1] == '_')) nb--;
+            size_t ve = d.find('"', i + 2);
+            if(nb == i || ve == std::string::npos) continue;
+            attrs.push_back({nb, i, i + 2, ve});
+            i = ve;
+        }
+        if(attrs.size() < 2) return;
+        std::vector<std::string> names;
+        for(auto& a : attrs)
+        {
+            std::string nm = d.substr(a.name_b, a.name_e - a.name_b);
+            if(std::find(names.begin(), names.end(), nm) == names.end()) names.push_back(nm);
+        }
+        const std::string want = names[(size_t)(op.uarg(0) % names.size())];
+        std::vector<size_t> cand;
+        for(size_t k = 0; k < attrs.size(); k++)
+            if(d.substr(attrs[k].name_b, attrs[k].name_e - attrs[k].name_b) == want) cand.push_back(k);
+        const Attr& src = attrs[cand[(size_t)(op.uarg(1) % cand.size())]];
+        const Attr& dst = attrs[(size_t)(op.uarg(2) % attrs.size())];
+        const std::string text = " " + d.substr(src.name_b, src.val_e + 1 - src.name_b);
+        d.insert(dst.val_e + 1, text);
+    }
+    else if(n == "textdel" || n == "textset")
+    {
+        // element text nodes  >text</  : lost or replaced
+        std::vector<std::pair<size_t, size_t>> texts;
+        for(size_t i = 0; i + 1 < d.size(); i++)
+        {
+            if(d[i] != '>') continue;
+            size_t e = d.find('<', i + 1);
+            if(e == std::string::npos) break;
+            bool blank = true;
+            for(size_t k = i + 1; k < e; k++)
+                if(!std::isspace((unsigned char)d[k])) blank = false;
+            if(!blank && e + 1 < d.size() && d[e + 1] == '/') texts.push_back({i + 1, e});
+            i = e;
+        }
+        if(texts.empty()) return;
+        auto t = texts[(size_t)(op.uarg(0) % texts.size())];
+        static const char* repl[] = {"", " ", "0", "-1", "255", "65536", "4294967296", "18446744073709551616", "A", "AB", "\t", "1e9", "NaN", "0x1"};
+        d.replace(t.first, t.second - t.first, n == "textdel" ? "" : repl[op.uarg(1) % (sizeof(repl) / sizeof(repl[0]))]);
+    }
     else if(n == "linedup" || n == "lineswap" || n == "linedel")
     {
         std::vector<std::pair<size_t, size_t>> lines; // [b,e) incl. newline
@@ -1982,8 +2037,12 @@ Plan gen_c09(u64 seed, const std::string& tier)
         int n = (int)fl.range(1, 2);
         for(int i = 0; i < n; i++)
         {
-            switch(fl.below(8))
+            switch(fl.below(12))
             {
+            case 8:
+            case 9: mut("mut.attrcopy", {(long long)fl.below(100000), (long long)fl.below(100000), (long long)fl.below(100000)}); break;
+            case 10: mut("mut.textdel", {(long long)fl.below(100000)}); break;
+            case 11: mut("mut.textset", {(long long)fl.below(100000), (long long)fl.below(64)}); break;
             case 0:
             case 1:
             case 2: mut("mut.retarget", {(long long)fl.below(100000), (long long)fl.below(100000)}); break;
